@@ -166,7 +166,8 @@ def signed_tree_multiplier(A, B, reducer=adders.wallace_reducer, adder_func=adde
     a = _twos_comp_conditional(A, aneg)
     b = _twos_comp_conditional(B, bneg)
 
-    res = tree_multiplier(a[:-1], b[:-1]).zero_extended(len(A) + len(B))
+    # the magnitude of the most negative operand needs all len(A) bits
+    res = tree_multiplier(a, b).zero_extended(len(A) + len(B))
     return _twos_comp_conditional(res, aneg ^ bneg)
 
 
